@@ -98,9 +98,32 @@ def run(chk):
     lits = ["0", "1", "0.1", "1e3", "123456789012345678", "1.7976931348623157e308", "5e-324", "1e400", ".5", "5.", "0.30000000000000004",
             "9007199254740993", "1113178120592002.25", "00012", "1E5", "1e+2", "1e-2"]
     strs = ["", "a", "hello world", "  spaced  ", "it's (not) a comment", "ünï", "a\nb", "1, 2; 3!", "'s", "say 1"]
-    l2 = [f"(exec n{i} parse {C.hx('say ' + t)})" for i, t in enumerate(lits)] + \
+    # poetic literals: every keyword alias that is a plain word there (operators, minus/without, literals' names), first and later,
+    # before digit groups, words, full stops and nothing
+    pw = ["minus", "without", "Minus", "WITHOUT", "plus", "with", "times", "of", "over", "between", "not", "non", "nothing", "nobody", "true", "ok",
+          "mysterious", "empty", "silent", "-", "-5", "- 5", "+", "a"]
+    poetic = [f"{lhs} {cop}{w}{rest}" for lhs, cop in (("Tommy", "is "), ("My heart", "was "), ("They", "are "), ("Tommy", "were "), ("Tommy", "'s "), ("We", "'re "))
+              for w in pw for rest in (" 5", " 1 degrees", "", " 40. 2", " 1e3", " lovestruck 7", ". 5")]
+    from . import gen_alias
+    alias_cases = gen_alias.programs(quick, rng)
+    l2 = [f"(exec a{i} parse {C.hx(c['src'])})" for i, c in enumerate(alias_cases)] + \
+         [f"(exec w{i} parse {C.hx(t + chr(10) + 'say it' + chr(10))})" for i, t in enumerate(poetic)] + \
+         [f"(exec n{i} parse {C.hx('say ' + t)})" for i, t in enumerate(lits)] + \
          [f"(exec q{i} parse {C.hx('say ' + chr(34) + t + chr(34))})" for i, t in enumerate(strs)]
     r2, _ = suite.compare(chk, l2, "lits", project=lambda x: x, suite_name="PARSE-literals")
+    # every alias in every position of its group: the tree is the first alias's tree
+    base_tree = {c["meta"]["template"]: i for i, c in enumerate(alias_cases) if c["meta"]["alias"] is None}
+    nbad = 0
+    for i, c in enumerate(alias_cases):
+        if not c["meta"]["same_tree"]:
+            continue
+        for side in ("debug", "release"):
+            a, b = r2[side].get(f"a{i}", ""), r2[side].get(f"a{base_tree[c['meta']['template']]}", "")
+            if erase_positions(a) != erase_positions(b):
+                nbad += 1
+                if nbad <= 4:
+                    chk.add_violation("a keyword alias changes the tree", {"oracle": "alias-invariance", "profile": side, "alias": c["meta"]["alias"], "group": c["meta"]["group"],
+                                      "src": c["src"], "tree": C.decode_hex_fields(a)[:400], "tree_first_alias": C.decode_hex_fields(b)[:400]})
     for i, t in enumerate(strs):
         for side in ("debug", "release"):
             v = r2[side].get(f"q{i}", "")
@@ -111,7 +134,9 @@ def run(chk):
                 "letter case of keywords and name mentions, separators (, & 'n' and), optional words, and for two of them extra "
                 "ignorable whitespace, punctuation and comments between tokens; oracle: trees equal after erasing source positions "
                 "(debug and release); model parser = implementation on every rendering (tree with positions, or error); number and "
-                "string literals denote their written value. distinct = distinct position-erased trees")
+                "string literals denote their written value; every keyword alias (lower, Title, upper case) in every grammatical position of its "
+                "group in 17 statement templates: same tree as the first alias (except where the spelling is data); every keyword alias as "
+                "first / later word of a poetic literal. distinct = distinct position-erased trees")
     conclude(chk, "C02", proved)
 
 
